@@ -1,11 +1,13 @@
 (* C18 overbook: one operator and one CPU per container, full-pool RAM, CPU-bound.
    Statements only; every proof is [exact <lemma of Proofs/OverbookFacts.v>]. Per scheduling round of the
    model of eudoxia/scheduler/overbook.py ([overbook_step]); [ob_rounds]: a sequence of rounds threading
-   the scheduler state (executor states arbitrary). *)
+   the scheduler state (executor states arbitrary). At the end: the run-level invariant of the operator
+   queue in the closed loop [sim_tick C AOverbook] (Proofs/OverbookRunFacts.v). *)
 From Coq Require Import List ZArith QArith.
 Import ListNotations.
 From Eudoxia Require Import Model.Types Model.Dag Model.Lifecycle Model.Container Model.Pool Model.Executor
-  Model.Sched Proofs.NaiveFacts Proofs.OverbookFacts.
+  Model.Sched Model.Simulator Proofs.ExecLifeFacts Proofs.NaiveFacts Proofs.OverbookFacts
+  Proofs.PriorityPoolRunFacts Proofs.OverbookRunFacts.
 Close Scope Q_scope.
 Close Scope Z_scope.
 
@@ -100,3 +102,112 @@ Print Assumptions C18_abandoned_forever.
 
 Example C18_max_failures_is_three : max_failures = 3%Z.
 Proof. reflexivity. Qed.
+
+(* ---------------------------------------------------------------------------------------------- *)
+(* Run level: the closed loop scheduler + executor, [sim_tick C AOverbook], started in [init_sim].
+   [sim_reach C AOverbook 0 (init_sim ..) t s]: [s] is a state the run passes through (Proofs/
+   PriorityPoolRunFacts.v); proofs in Proofs/OverbookRunFacts.v. *)
+
+(* (a) no operator is queued twice; (b) every queued operator is ready in the current world: PENDING or
+   FAILED (so held by no container) with all parents COMPLETED. For every static description. *)
+Theorem C18_run_queue_sound : forall C np cpu ram t s,
+  sim_reach C AOverbook 0%Z (init_sim C np cpu ram) t s ->
+  NoDup (ss_queue (sm_sched s)) /\
+  (forall o, In o (ss_queue (sm_sched s)) ->
+     assignable (st_of (e_world (sm_exec s)) o) = true /\
+     parents_complete (cf_static C) (e_world (sm_exec s)) o = true).
+Proof. exact ob_queue_sound_reach. Qed.
+Print Assumptions C18_run_queue_sound.
+
+(* nothing is ever suspending; every container and every reported result holds exactly one operator *)
+Theorem C18_run_one_operator_containers : forall C np cpu ram t s,
+  sim_reach C AOverbook 0%Z (init_sim C np cpu ram) t s ->
+  (forall p, In p (e_pools (sm_exec s)) ->
+     p_suspending p = [] /\ forall c, In c (p_active p) -> exists o, c_ops c = [o]) /\
+  (forall r, In r (sm_results s) -> exists o, r_ops r = [o]).
+Proof. exact ob_exec_shape_reach. Qed.
+Print Assumptions C18_run_one_operator_containers.
+
+(* (c) completeness, for static descriptions built from well-formed DAGs: if pipeline [k] has arrived,
+   is not abandoned and has no result waiting to be processed by the next round, every ready operator
+   of [k] is in the queue *)
+Theorem C18_run_queue_complete : forall C l np cpu ram t s,
+  cf_static C = mk_static l -> dags_wf l ->
+  sim_reach C AOverbook 0%Z (init_sim C np cpu ram) t s ->
+  forall k o,
+    In k (map fst (sm_arrival s)) ->
+    (assoc_get k (ss_fail (sm_sched s)) < max_failures)%Z ->
+    ~ (exists r, In r (sm_results s) /\ r_pipe C r = k) ->
+    In o (pd_order (pipe_of (cf_static C) k)) ->
+    assignable (st_of (e_world (sm_exec s)) o) = true ->
+    parents_complete (cf_static C) (e_world (sm_exec s)) o = true ->
+    In o (ss_queue (sm_sched s)).
+Proof. exact ob_queue_complete_reach. Qed.
+Print Assumptions C18_run_queue_complete.
+
+(* (b) + (c): for such a pipeline, what [get_ops(ASSIGNABLE_STATES, require_parents_complete=True)]
+   would return is exactly the part of the queue that belongs to the pipeline *)
+Theorem C18_run_queue_exact : forall C l np cpu ram t s,
+  cf_static C = mk_static l -> dags_wf l ->
+  sim_reach C AOverbook 0%Z (init_sim C np cpu ram) t s ->
+  forall k,
+    In k (map fst (sm_arrival s)) ->
+    (assoc_get k (ss_fail (sm_sched s)) < max_failures)%Z ->
+    ~ (exists r, In r (sm_results s) /\ r_pipe C r = k) ->
+    forall o, In o (get_ops (cf_static C) (e_world (sm_exec s)) k assignable true) <->
+              In o (pd_order (pipe_of (cf_static C) k)) /\ In o (ss_queue (sm_sched s)).
+Proof. exact ob_queue_exact_reach. Qed.
+Print Assumptions C18_run_queue_exact.
+
+(* the same for the state [sf] in which a run ends, normally ([oe = None]) or at the tick that raised *)
+Theorem C18_run_queue_sound_final : forall C np cpu ram arrivals sf logs oe,
+  sim_run C AOverbook 0%Z (init_sim C np cpu ram) arrivals = (sf, logs, oe) ->
+  NoDup (ss_queue (sm_sched sf)) /\
+  (forall o, In o (ss_queue (sm_sched sf)) ->
+     assignable (st_of (e_world (sm_exec sf)) o) = true /\
+     parents_complete (cf_static C) (e_world (sm_exec sf)) o = true).
+Proof. exact ob_queue_sound_run. Qed.
+Print Assumptions C18_run_queue_sound_final.
+
+Theorem C18_run_queue_complete_final : forall C l np cpu ram arrivals sf logs oe,
+  cf_static C = mk_static l -> dags_wf l ->
+  sim_run C AOverbook 0%Z (init_sim C np cpu ram) arrivals = (sf, logs, oe) ->
+  forall k o,
+    In k (map fst (sm_arrival sf)) ->
+    (assoc_get k (ss_fail (sm_sched sf)) < max_failures)%Z ->
+    ~ (exists r, In r (sm_results sf) /\ r_pipe C r = k) ->
+    In o (pd_order (pipe_of (cf_static C) k)) ->
+    assignable (st_of (e_world (sm_exec sf)) o) = true ->
+    parents_complete (cf_static C) (e_world (sm_exec sf)) o = true ->
+    In o (ss_queue (sm_sched sf)).
+Proof. exact ob_queue_complete_run. Qed.
+Print Assumptions C18_run_queue_complete_final.
+
+(* non-vacuity. One pool, 2 CPUs, 8 GB; pipeline 0 = operators 0, 1 and 2 (child of both), pipeline 1 =
+   operators 3, 4; every operator runs two ticks at 5 GB ([OverbookRunExample.Cx], overcommit on).
+   Tick 0: 0 and 1 run together, 10 GB > 8 GB, the container of 0 is killed. Tick 1: pipeline 1 arrives,
+   the failure is counted, 3, 4 and again 0 are queued; 3 is assigned, [4; 0] wait. *)
+Example C18_run_requeued :
+  let '(s2, logs, oe) := OverbookRunExample.run_x [[0]; [1]] in
+  oe = None /\ map (fun lg => map a_ops (tl_asgs lg)) logs = [[[0]; [1]]; [[3]]] /\
+  ss_queue (sm_sched s2) = [4; 0] /\ ss_fail (sm_sched s2) = [(0, 1%Z)] /\
+  map (st_of (e_world (sm_exec s2))) [0; 1; 2; 3; 4] = [Failed; Completed; Pending; Running; Pending] /\
+  map fst (sm_arrival s2) = [0; 1] /\
+  map (fun r => (r_ops r, r_pipe OverbookRunExample.Cx r)) (sm_results s2) = [([1], 0)].
+Proof. exact OverbookRunExample.ex_ob_requeued. Qed.
+
+(* the whole run: 0 is retried in tick 4, 2 starts once both parents are completed; one failed
+   container, no error, everything completed, the queue is empty *)
+Example C18_run_retry :
+  let '(sf, logs, oe) := OverbookRunExample.run_x [[0]; [1]; []; []; []; []; []; []] in
+  oe = None /\ sm_nfail sf = 1%Z /\ ss_queue (sm_sched sf) = [] /\
+  map (fun lg => map a_ops (tl_asgs lg)) logs = [[[0]; [1]]; [[3]]; [[4]]; [[0]]; []; [[2]]; []; []] /\
+  map (st_of (e_world (sm_exec sf))) [0; 1; 2; 3; 4] =
+    [Completed; Completed; Completed; Completed; Completed].
+Proof. exact OverbookRunExample.ex_ob_retry_run. Qed.
+
+(* the hypotheses of the completeness theorem are satisfiable: it yields that operator 4 is queued in
+   the state after tick 1, [OverbookRunExample.s2x = fst (fst (run_x [[0]; [1]]))] *)
+Example C18_run_complete_applies :
+  In 4 (ss_queue (sm_sched OverbookRunExample.s2x)).
+Proof. exact OverbookRunExample.ex_ob_complete_applies. Qed.
